@@ -282,6 +282,7 @@ public:
     for (int p : smp_perm) if (p >= 0 && p < n && !seen[p]) { order.push_back(p); seen[p] = true; }
     for (int i = 0; i < n; i++) if (!seen[i]) order.push_back(i);
     auto tid_of = [&](int i) { return (size_t(i) < smp_assign.size()) ? smp_assign[i] % std::max(1, smp_nthreads) : 0; };
+    smp_event(std::string("{\"e\":\"LoopBegin\",\"w\":\"") + what + "\",\"n\":" + std::to_string(n) + "}");
     if (smp_sched_mode == 1) {
       for (int i : order) {
         tl_thread_id = tid_of(i);
@@ -309,6 +310,7 @@ public:
       for (int e : errs) err |= e;
       tl_thread_id = 0;
     }
+    smp_event(std::string("{\"e\":\"LoopEnd\",\"w\":\"") + what + "\",\"n\":" + std::to_string(n) + "}");
     return err;
   }
   int smp_loop(int n_items, std::function<int(int)> const &worker) override
